@@ -10,6 +10,7 @@ variable {α : Type}
 
 def Src.idx : Src α → List Nat
   | .obj j => [j]
+  | .mixed _ j _ => [j]
   | _ => []
 
 /-- the pool entries an operation may change (`peek` and `copy`: none) -/
@@ -32,6 +33,13 @@ theorem specSrc_frame {sp sp' : SPool α} {s : Src α} {x : LSeq α} (h : specSr
     sp'.length = sp.length ∧ ∀ j, j ∉ s.idx → sp'[j]? = sp[j]? := by
   cases s with
   | obj k =>
+    simp only [specSrc] at h
+    split at h
+    · cases h; exact ⟨by simp, fun j hj => by simp [Src.idx] at hj; simp [List.getElem?_set, Ne.symm hj]⟩
+    · cases h; exact ⟨by simp, fun j hj => by simp [Src.idx] at hj; simp [List.getElem?_set, Ne.symm hj]⟩
+    · cases h
+    · cases h
+  | mixed pre k post =>
     simp only [specSrc] at h
     split at h
     · cases h; exact ⟨by simp, fun j hj => by simp [Src.idx] at hj; simp [List.getElem?_set, Ne.symm hj]⟩
@@ -214,6 +222,7 @@ theorem spec_frame {sp sp' : SPool α} {op : Op α} {o : Obs α} (h : specStep s
     | cyc xs => exact key (.cyc xs) hj h
     | chain xss => exact key (.chain xss) hj h
     | obj k => exact key (.obj k) hj h
+    | mixed pre k post => exact key (.mixed pre k post) hj h
   | tee i n =>
     simp only [specStep] at h
     cases hs : specSrc sp (.obj i) with
